@@ -90,8 +90,8 @@ CLAIMS.update({
 COAL_NOTE = ("Trusted: Coq kernel + VM; the routing model in Check/ChkCoalesce.v (tied to aucoalesce by the correspondence: the routed part of every returned event - data, user ids, SELinux labels, result, session, paths, process args - must equal the model's on every generated group); "
              "records enter as what Data()/Tags() returned; the event is observed through its JSON form plus Warnings; reflect.DeepEqual for snapshot equality. No axioms.")
 CLAIMS.update({
-    "C09": dict(text="Partial proof: C09_primary_nothing_dropped_partial (newEvent stores every field of the primary record under its own name in Data / User.IDs / User.SELinux, for every record), C09_result_session, C09_compound_fields_kept (a record of a type without routing of its own, anywhere in a compound event: every field whose key no other record type may overwrite is in Data at the end, with the written value if the key was new, and a warning is counted if it was taken), C09_compound_paths_kept (every PATH record is in Paths), C09_error_not_partial (no records, or several without SYSCALL, give an error). "
-                     "The whole property - identity, every key/value of every constituent record present or warned, file summary mirroring the selected PATH record, mode & 07777 - is decided by the independent checker chk_C09 on every generated group, and the object type on ALL 65536 modes (exhaustive). Known finding: every mode is classified as a regular file.",
+    "C09": dict(text="Partial proof: C09_primary_nothing_dropped_partial (newEvent stores every field of the primary record under its own name in Data / User.IDs / User.SELinux, for every record), C09_result_session, C09_compound_fields_kept (a record of a type without routing of its own, anywhere in a compound event: every field whose key no other record type may overwrite is in Data at the end, with the written value if the key was new, and a warning is counted if it was taken), C09_compound_paths_kept (every PATH record is in Paths), C09_file_summary_mirrors_selected_path (setFileObject on the model of applyNormalization: path, inode, device, owner ids and mode & 07777 of the PATH record the normalisation selects), C09_error_not_partial (no records, or several without SYSCALL, give an error). "
+                     "applyNormalization itself (which normalisation an event gets, ECS category/type merge, action, object type, file/socket object, actor/object/how from the first key present) is modelled over the generated normalisation records and must equal the implementation on every generated group. The whole property - identity, every key/value of every constituent record present or warned, file summary mirroring the selected PATH record, mode & 07777 - is also decided by the independent checker chk_C09 on every generated group, and the object type on ALL 65536 modes (exhaustive). Known finding: every mode is classified as a regular file.",
                 note=COAL_NOTE + " PARTIAL: applyNormalization (summary, ECS) is not modelled; nothing-dropped for compound events is checked per generated group, proved only for the primary record.", technique="Coq proof of the primary-record routing + independent trace checker + exhaustive mode sweep + correspondence", design="6 C09"),
     "C15": dict(text="Proof on a store-passing model (C15_inputs_intact, C15_repeatable, C15_isolated: the repaired CoalesceMessages returns the store it was given). Whether the implementation is that model is decided by the run: Data/Tags/ToMapStr snapshots of every input before and after, three repeated calls, ResolveIDs with hard-coded users, the last eight events re-compared after every later call, and a race-detector run with 16 goroutines. The pinned tree deleted fields from its inputs (repaired).",
                 note=COAL_NOTE + " PARTIAL: the theorems are immediate on the functional model (it cannot alias); aliasing with the normalisation tables and data races are runtime facts observed by the harness and the race detector, not proved.", technique="store-passing Coq model + before/after snapshots, repeated calls, pool re-comparison, race detector", design="6 C15"),
